@@ -30,6 +30,8 @@ type c08Sub struct {
 	Deliver int  `json:"deliver"`          // values released (ticks) before the causes fire
 	Stalled bool `json:"stalled"`          // the consumer is not reading when the causes fire
 	Ignore  bool `json:"ignore,omitempty"` // the handler ignores its context and keeps sending
+	// KeepOpen (with CloseSome): this subscription's handler does not close its channel by itself
+	KeepOpen bool `json:"keep_open,omitempty"`
 }
 
 type c08Case struct {
@@ -40,9 +42,13 @@ type c08Case struct {
 	// TriggerCut: fire a connection cut from inside a yield point (point, occurrence) and hold the library goroutine
 	TrigPoint string `json:"trig_point,omitempty"`
 	TrigOcc   int    `json:"trig_occ,omitempty"`
+	TrigHoldU int    `json:"trig_hold_us,omitempty"` // how long the library goroutine is held at the trigger point (default 2000)
 	// Stale: subscriptions on a first connection, a cut, new subscriptions on the re-established connection, then the
 	// callers of some of the first generation cancel their (long dead) contexts
 	Stale *c08Stale `json:"stale,omitempty"`
+	// CloseSome: the handlers of the subscriptions not marked KeepOpen close their channels once they have sent
+	// everything, whatever the causes: close notifications for some channels race the teardown that must close the rest
+	CloseSome bool `json:"close_some,omitempty"`
 }
 
 type c08Stale struct {
@@ -185,7 +191,11 @@ func runC08(c c08Case) (*Violation, string) {
 	rules := append([]*HookRule{}, c.Rules...)
 	var trigFired int32
 	if c.TrigPoint != "" {
-		rules = append(rules, &HookRule{Point: c.TrigPoint, Occ: c.TrigOcc, Side: "client", HoldU: 2000, Trigger: func() {
+		hold := 2000
+		if c.TrigHoldU > 0 {
+			hold = c.TrigHoldU
+		}
+		rules = append(rules, &HookRule{Point: c.TrigPoint, Occ: c.TrigOcc, Side: "client", HoldU: hold, Trigger: func() {
 			atomic.StoreInt32(&trigFired, 1)
 			rig.Proxy.CutAll("rst")
 		}})
@@ -218,7 +228,7 @@ func runC08(c c08Case) (*Violation, string) {
 	for i, sc := range c.Subs {
 		s := &sub{c08Sub: sc, tok: rig.Tok(fmt.Sprintf("s%d", i))}
 		s.ctx, s.cancel = context.WithCancel(context.Background())
-		plan := Plan{N: sc.N, Early: sc.Early, Pace: true, Linger: !handlerCloses, IgnoreCtx: sc.Ignore}
+		plan := Plan{N: sc.N, Early: sc.Early, Pace: true, Linger: sc.KeepOpen || (!handlerCloses && !c.CloseSome), IgnoreCtx: sc.Ignore}
 		p := &Pending{Kind: "sub", Tok: s.tok, Done: make(chan struct{}), Issued: time.Now()}
 		s.p = p
 		go func() {
@@ -512,6 +522,17 @@ func TestC08(t *testing.T) {
 		}
 		v, _ := runC08(c)
 		return v
+	})
+	t.Run("mixed-close-and-teardown", func(t *testing.T) {
+		// some handlers close their channels by themselves while a cut (fired from inside the processing of one of those
+		// close notifications) makes the teardown close the rest
+		for _, hold := range []int{200, 2000} {
+			var subs []c08Sub
+			for i := 0; i < 40; i++ {
+				subs = append(subs, c08Sub{N: 2, Early: 1, Deliver: 1, KeepOpen: i%2 == 0})
+			}
+			run(t, c08Case{Subs: subs, CloseSome: true, TrigPoint: "chan.close", TrigOcc: 4, TrigHoldU: hold, Rules: []*HookRule{{Point: "chan.close", Occ: 0, Side: "client", DelayU: 300}}})
+		}
 	})
 	t.Run("stale-owners", func(t *testing.T) {
 		for _, st := range []c08Stale{{1, 1, 1, 0}, {1, 1, 1, 3}, {2, 2, 3, 1}, {3, 1, 2, 0}, {2, 3, 0, 2}, {4, 4, 15, 5}} {
